@@ -220,7 +220,11 @@ Definition c06_client (s : state) (m : msg) (o : obs) (orc : oracle) (e : cid * 
   let l := ent_subs c cl (m_topic m) orc in
   let n := length (recv_of o c) in
   let want := if spec_entitled s c cl m l && negb (existsb (beq_bytes c) (ob_drops o)) then 1%nat else 0%nat in
-  Nat.leb n 1 && (Nat.eqb n want || KF_C03_nolocal_merge c m l).
+  (* attribution: the copy must carry the identifiers and the QoS of exactly the subscriptions the client was
+     chosen for (a member chosen for a group shows that group's identifier / QoS), so a group served through two
+     members, or through none, cannot be explained by any choice of one member per group *)
+  Nat.leb n 1 && (Nat.eqb n want || KF_C03_nolocal_merge c m l)
+  && forallb (c04_delivery_ok s m cl l) (recv_of o c).
 
 Definition c06_publish (s : state) (m : msg) (o : obs) : mres :=
   let t := m_topic m in
